@@ -204,8 +204,10 @@ ExitStatus ParseExitStatus(int status) {
     if (WTERMSIG(status) == SIGINT || WTERMSIG(status) == SIGTERM
         || WTERMSIG(status) == SIGHUP)
       return ExitInterrupted;
+    // At this point, we exit with any other signal+128.  (Not status+128:
+    // the wait status also carries the "core dumped" bit.)
+    return static_cast<ExitStatus>(WTERMSIG(status) + 128);
   }
-  // At this point, we exit with any other signal+128
   return static_cast<ExitStatus>(status + 128);
 }
 
